@@ -56,6 +56,10 @@ impl Socket for PullSocket {
 impl SocketRecv for PullSocket {
     async fn recv(&mut self) -> ZmqResult<ZmqMessage> {
         loop {
+            // Release what is still held for peers whose connection has ended.
+            for (peer_id, connection_id) in self.fair_queue.take_closed() {
+                self.backend.peer_closed(&peer_id, connection_id).await;
+            }
             match self.fair_queue.next().await {
                 Some((_peer_id, Ok(Message::Message(message)))) => {
                     return Ok(message);
